@@ -402,8 +402,58 @@ let run_tokens payload =
     if (not has_fail) && m <> sp then L [A "model-differs-from-spec"; m; sp] else m
   | _ -> failwith "tokens payload"
 
+(* ---- parse: <text>  ->  (ok policy...) | (err) ; the model pipeline: specification tokenizer + parser ---- *)
+let run_parse payload =
+  match payload with
+  | [A doc] ->
+    let src = str_of_atom doc in
+    let n = List.length src in
+    (match spec_tokenize (nat_of_int (n + 2)) src with
+     | Some (Some ts) ->
+       (match p_policies (nat_of_int (12 * List.length ts + 100)) ts [] with
+        | POk (ps, _) ->
+          L (A "ok" :: List.map (fun p ->
+              sx_of_policy "x70" (L (A "annots" :: List.map (fun (k, v) -> L [A (atom_of_str k); A (atom_of_str v)]) p.pp_annots)) p.pp_policy) ps)
+        | PErr0 -> L [A "err"]
+        | PFuel -> L [A "out-of-fuel"])
+     | Some None -> L [A "err"]
+     | None -> L [A "out-of-fuel"])
+  | _ -> failwith "parse payload"
+
+(* the Unicode tables of the string escaper on the few runes the generators use (checked by the byte comparison itself) *)
+let printable_rune (r : Model.z) : bool =
+  let r = int_of_cz r in
+  (r >= 0x20 && r < 0x7f) || List.mem r [0xe9; 0x65e5; 0x1f600; 0xfb01; 0xfffd; 0x301; 0x4e2d]
+let gext_rune (r : Model.z) : bool = List.mem (int_of_cz r) [0x301]
+
+let set_order_idx (l : value list) : Model.nat list =
+  match marshal_order l with
+  | Some o -> List.map (fun v -> let rec idx i = function [] -> failwith "set order" | x :: r -> if x = v then i else idx (i + 1) r in nat_of_int (idx 0 l)) o
+  | None -> List.mapi (fun i _ -> nat_of_int i) l
+
+(* ---- printpol: <policy>  ->  (text xBYTES (toks (ty text)...)) ---- *)
+let run_printpol payload =
+  let table = match payload with
+    | _ :: L (A "runes" :: rs) :: _ -> List.map (function L [A r; A p; A g] -> (int_of_string r, (p = "1", g = "1")) | _ -> failwith "runes") rs
+    | _ -> [] in
+  let printable_rune r = let i = int_of_cz r in if i < 0x7f then i >= 0x20 else (match List.assoc_opt i table with Some (p, _) -> p | None -> printable_rune r) in
+  let gext_rune r = match List.assoc_opt (int_of_cz r) table with Some (_, g) -> g | None -> gext_rune r in
+  match payload with
+  | p :: _ ->
+    let (id, pol) = policy_of_sx p in
+    let ann = match p with
+      | L l -> (match List.rev l with
+                | L (A "annots" :: kvs) :: _ -> List.map (function L [A k; A v] -> (str_of_atom k, str_of_atom v) | _ -> failwith "annot") kvs
+                | _ -> [])
+      | _ -> [] in
+    let items = policy_items printable_rune gext_rune set_order_idx print_ip ann pol in
+    L [A "text"; A (atom_of_str (render items))]
+  | _ -> failwith "printpol payload"
+
 let run_case kind payload =
   match kind with
+  | "parse" -> run_parse payload
+  | "printpol" -> run_printpol payload
   | "tokens" -> run_tokens payload
   | "authz-abs" -> run_authz_abs payload
   | "eval" -> run_eval payload
